@@ -9,6 +9,37 @@ BASELINE = ("cd /repo && env -u GSCRIB_VERIF /venv/bin/python -m pytest -ra -q -
 
 # id -> (technique, level text, level note, design ref)
 CLAIMED = {
+    "C08": (
+        "Lean 4 theorems over a hand-written model of DefaultFormatter (own digit printer/parser, round-half-even, parameters, "
+        "command, comment, line) and of every way the builder assembles a statement, with an independent block lexer "
+        "+ differential correspondence (string equality of number() on >= 60k doubles per run, every text-producing command)",
+        "Proof: C08_number_error (printed string read back is within half a unit of the last place, all rationals, all dp), "
+        "C08_number_grammar, C08_nonfinite(_stmt), C08_line_roundtrip, C08_word_values, C08_styles_supported; "
+        "C08_number_partial covers the large-magnitude branch where numpy prints shortest round-trip digits (trusted parameter, "
+        "checked by string equality on every sample).",
+        "Trusted: Lean kernel, Mathlib tactics in lemma files, numpy Dragon4 / CPython float<->decimal conversion (modelled by "
+        "specification), model tied by correspondence, harness lexer.",
+        "DESIGN.md section 7 / C08",
+    ),
+    "C09": (
+        "Lean 4 theorems over the formatter model: sanitiser with Python re.sub/str.replace semantics and an independent comment "
+        "stripper, for ALL text, every supported comment style and every text-taking entry point + differential correspondence "
+        "on adversarial strings",
+        "Proof: C09_sanitize_safe, C09_comment_confined, C09_inert, C09_exec_is_code: stripping comments from what any "
+        "text-taking call writes leaves exactly the executable words of the same call with empty text, and the same number of lines.",
+        "Trusted: as C08. Comment symbols containing '{}' and string-valued non-comment parameters are outside the model.",
+        "DESIGN.md section 7 / C09",
+    ),
+    "C11": (
+        "Lean 4 theorems over the Builder model + position machine (absolute parameters equal in both modes, every traced vertex "
+        "reached in both modes by induction over the vertex list) + paired executions of the real builder/tracer in both modes",
+        "Proof: C11_to_absolute, C11_to_absolute_list, C11_circle_target, C11_path_positions, C11_mode_independent, "
+        "C11_move_same, C11_bypass_same. Each logical toolpath (moves, rapids, bypass moves, mode contexts, every tracer shape) is "
+        "run in absolute and in relative mode on the real code; an independent interpreter compares machine positions vertex by vertex.",
+        "Trusted: as C01. The curve formulas are C10's; equality of vertex lists in floats is sampled (grid waypoints), rounding "
+        "of relative words accumulates within the stated tolerance.",
+        "DESIGN.md section 7 / C11",
+    ),
     "C04": (
         "Lean 4 theorems over a hand-written model of Transform/CoordinateTransformer/GCodeCore's move path for an ARBITRARY "
         "4x4 current matrix (algebra over Q by grind, induction over op lists) + differential correspondence with scipy's "
